@@ -1,7 +1,7 @@
 /-
   Model.Tsm.Ssm — one segmentation state machine: the code of `SSM`,
   `ClientSSM` and `ServerSSM` (py34/bacpypes/appservice.py, tree AFTER the
-  repairs fixes/Tsm-1 … Tsm-9), transcribed branch for branch.
+  repairs fixes/Tsm-1 … Tsm-9 and C05-server-first-segment-seq0), transcribed branch for branch.
 
   Every handler is a function of the transaction's key and body and returns
   `(new body | none = set_state(COMPLETED/ABORTED): removed from its list,
@@ -365,6 +365,7 @@ def serverIdle (cfg : Cfg) (now : Nat) (di : Option DeviceInfo) (k : Key) (b : B
       (some { b with st := .awaitResp, timer := stateTimer now cfg.appTimeout },
        [.indicate k.peer a])
     else if !cfg.seg.canRx then serverAbortNet k abortSegmentationNotSupported
+    else if a.seq ≠ 0 then serverAbortNet k abortInvalidApduInThisState   -- fix C05-server-first-segment-seq0
     else
       let w := min a.win cfg.window
       (some { b with ctx := some a, window := some w, lastSeq := 0, initSeq := 0,
